@@ -76,6 +76,14 @@ theorem stream_trace_balanced (P : Policy) (w : Nat) (ops : List SsOp) (h : ∀ 
     Balanced (ssTrace P w ops) :=
   trace_balanced _ (ssProgram_regs P w ops ssInit h)
 
+/-- `Array<String<char>>` (owning items, one block per item with storage): every program — copies make
+fresh blocks for every item, move-append adopts, `Drop/Clear/Reset`/shrinking release the dropped items,
+destruction releases the items then the array block — emits a balanced trace.  No hypothesis on the
+registers: the closing `drop`s cover every slot the program ever mentioned. -/
+theorem array_owning_trace_balanced (ops : List (ArrOp Nat)) : Balanced (arrOwnTrace ops) := by
+  simp only [arrOwnTrace]
+  exact closedTrace_balanced _ _
+
 /-- Between operations too: after any prefix of the primitives the allocator's live set is exactly the
 set of blocks owned by some register, each by one register only (so a later release can never hit a
 block that is already gone, and a block that no register owns cannot exist). -/
@@ -83,10 +91,18 @@ theorem live_set_is_owned_set (ps : List Prim) :
     ∃ h, run (execAll ps LW.init).2 [] = some h ∧ Sim h (execAll ps LW.init).1 :=
   execAll_sim ps [] LW.init sim_init
 
+/-- (owning arrays) the same for every prefix of a program. -/
+theorem owning_live_set_is_owned_set (ops : List (ArrOp Nat)) :
+    ∃ h, run (execAll (arrOwnProgram ops 1 arrInit OW.init).1 LW.init).2 [] = some h ∧
+      Sim h (execAll (arrOwnProgram ops 1 arrInit OW.init).1 LW.init).1 :=
+  live_set_is_owned_set _
+
 /-! Non-vacuity (tests by evaluation): self-append, self-move-append, self-assignment, moved-from use. -/
 example : arrTrace 4 [.push 0 1, .push 0 2, .push 0 3, .appC 0 0, .appM 0 0, .push 0 9, .asgC 0 0, .asgM 1 0, .push 0 5] =
     [.alloc 1 8, .alloc 2 16, .free 1, .alloc 3 24, .free 2, .alloc 4 48, .free 3, .free 4, .alloc 5 8, .alloc 6 8, .free 6, .free 5] := by decide
 example : Balanced (strTrace 2 [.ctorU 0 [97, 98], .appC 0 0, .appM 0 0, .asgM 1 0, .plusM 2 1 1, .appCh 1 65]) := by unfold Balanced; decide
 example : Balanced (ssTrace policyStd 1 [.appU 0 0 [97, 98, 99], .appS 0 0, .shlS 0 0, .getString 0, .asgM 0 0, .ctorM 1 0, .pushCh 0 0 7]) := by unfold Balanced; decide
+example : arrOwnTrace [.push 0 7, .push 0 8, .appC 0 0, .asgC 1 0, .drop 0 3] =
+    [.alloc 1 3, .alloc 2 32, .alloc 3 3, .alloc 4 3, .free 3, .alloc 5 64, .free 2, .alloc 6 3, .alloc 7 3, .alloc 8 64, .alloc 9 3, .alloc 10 3, .alloc 11 3, .alloc 12 3, .free 4, .free 6, .free 7, .free 1, .free 5, .free 9, .free 10, .free 11, .free 12, .free 8] := by decide
 
 end Qentem.Props.C16Seq
